@@ -162,7 +162,7 @@ def text_case(draw, dialect_list=None, max_size=200):
 T = {"t1": ["a", "b", "c"], "t2": ["a", "d"], "t3": ["k", "v"]}
 
 DEFAULT_FEATURES = dict(distinct=False, noise=True, comments=True, setops=True, cte=True, subquery=True,
-                        groupby=True, orderby=True, concat=True, upper_idents=True, quoted=False)
+                        groupby=True, orderby=True, concat=True, upper_idents=True, quoted=False, multi_cte=False)
 
 
 class SqlGen:
@@ -303,7 +303,14 @@ class SqlGen:
         if self.f["cte"] and r < 0.3:
             s = self.select(1)
             if s["names"]:
-                return (f"{self.kw('WITH')} cte {self.kw('AS')} ({s['sql']}){self.ws()}"
+                more = ""
+                if self.f.get("multi_cte") and rng.random() < 0.5:
+                    # a second / third CTE, on the same line or the next, optionally followed by comment-only lines
+                    for i in range(rng.randint(1, 2)):
+                        more += (rng.choice([", ", ",\n", "\n, ", ",\n    "]) + f"cte{i + 2} {self.kw('AS')} "
+                                 f"({self.kw('SELECT')} a {self.kw('FROM')} t{1 + i % 2})")
+                    more += rng.choice(["", "", "\n-- main query", "\n/* main query */", "\n\n-- m1\n-- m2"])
+                return (f"{self.kw('WITH')} cte {self.kw('AS')} ({s['sql']}){more}{self.ws()}"
                         f"{self.kw('SELECT')} {rng.choice(s['names'])} {self.kw('FROM')} cte")
         return self.select()["sql"]
 
